@@ -787,7 +787,7 @@ func (f *Frame) callsiteObligations(in ssa.Instruction, shortName, qualName stri
 		}
 		if cl.NParams > 0 {
 			if cl.NParams != len(args) {
-				panic(fmt.Sprintf("%s:%d: callsite clause binds %d callee arguments, call has %d", cl.File, cl.Line, cl.NParams, len(args)))
+				panic(unsupportedErr{fmt.Sprintf("contract-target-changed: %s:%d: callsite clause binds %d callee arguments (receiver first), call has %d", shortPos(cl.File), cl.Line, cl.NParams, len(args))})
 			}
 			a = append(a, args...)
 		}
@@ -926,7 +926,7 @@ func (f *Frame) invoke(in ssa.Instruction, cc *ssa.CallCommon, st *State) []Term
 		}
 		c.unsupported(f, "interface call in specification: "+qual)
 	}
-	f.callsiteObligations(in, short, qual, it, args[1:], st)
+	f.callsiteObligations(in, short, qual, it, args, st)
 	// interface-level contract?
 	if blk := c.eng.ifaceBlock(it, cc.Method.Name()); blk != nil {
 		return f.applyIfaceContract(in, cc, blk, args, st)
